@@ -48,6 +48,9 @@ def _protocol(kinds, maxtasks, syn, silence, consumed, mem, want):
     ok, why, done = H.check_grammar(msgs, nacked, 4242, ctl)
     if not ok:
         return fail('C03:grammar:' + why)
+    if ctl.unloadable:
+        # "reaches the caller as a picklable record": the worker could pickle it, the parent cannot unpickle it
+        return fail('C12:record-sent-by-the-worker-cannot-be-unpickled-by-the-parent' + (':exception-class-with-required-constructor-arguments' if 6 in kinds else ''))
     # every task body entered belongs to a job that was accepted and not refused
     for j in ctl.bodies:
         if j in nacked:
@@ -84,6 +87,8 @@ def _protocol(kinds, maxtasks, syn, silence, consumed, mem, want):
                 return fail('C02:SystemExit-raised-by-the-task-not-reported-as-its-error')
             if kind == 5 and not (succ is False and val.type is KeyboardInterrupt):
                 return fail('C02:KeyboardInterrupt-raised-by-the-task-not-reported-as-its-error')
+            if kind == 6 and not (succ is False and val.type is H.NeedsTwo):
+                return fail('C12:exception-not-reported-on-its-job')
             if kind == 3 and not (succ is False and val.type is bp.MaybeEncodingError):
                 return fail('C12:unserialisable-result-not-reported-as-encoding-error')
     # how the loop ended
@@ -259,6 +264,21 @@ def h_sysexit(code: int) -> bool:
         nd = NDCode(code)
         pos = nd.draw(0, NT - 1)
         kinds = [(4 + nd.draw(0, 1)) if j == pos else nd.draw(0, 1) for j in range(NT)]
+        return _protocol(kinds, nd.draw(0, NT), None, None, NT, None, None)
+    except Prune:
+        return True
+
+
+def h_ctor_exception(code: int) -> bool:
+    """
+    pre: 0 <= code < CODEMAX
+    post: _
+    """
+    # "any exception a task raises": one whose class needs constructor arguments that .args does not carry
+    try:
+        nd = NDCode(code)
+        pos = nd.draw(0, NT - 1)
+        kinds = [6 if j == pos else nd.draw(0, 1) for j in range(NT)]
         return _protocol(kinds, nd.draw(0, NT), None, None, NT, None, None)
     except Prune:
         return True
